@@ -514,6 +514,25 @@ class IsSupersetComparisonExpression(_ComparisonExpression):
         super(IsSupersetComparisonExpression, self).__init__("ISSUPERSET", lhs, rhs, negated)
 
 
+class ExistsComparisonExpression(_ComparisonExpression):
+    """'EXISTS' Comparison Expression (STIX 2.1)
+
+    Args:
+        lhs (ObjectPath OR str): the object path whose existence is tested
+        negated (bool): comparison expression negated. Default: False
+    """
+    def __init__(self, lhs, negated=False):
+        # (There is no right-hand side; the constant just keeps the expression
+        # uniform with the other comparison expressions.)
+        super(ExistsComparisonExpression, self).__init__("EXISTS", lhs, True, negated)
+
+    def __str__(self):
+        if self.negated:
+            return "NOT EXISTS %s" % self.lhs
+        else:
+            return "EXISTS %s" % self.lhs
+
+
 class _BooleanExpression(_PatternExpression):
     """Boolean Pattern Expression
 
